@@ -164,12 +164,12 @@ Definition ai_sub (a b : ArtInertia) : ArtInertia :=
 Definition halfCrossDiff (v : Vec3 T) (F G : Mat33 T) : SymMat33 T :=
   let '(v0, v1, v2) := v in
   let f := m33_e F in let g := m33_e G in
-  ((v1 * (f 2 0 + g 0 2)%nat - v2 * (f 1 0 + g 0 1)%nat,
-    v2 * (f 0 1 + g 1 0)%nat - v0 * (f 2 1 + g 1 2)%nat,
-    v0 * (f 1 2 + g 2 1)%nat - v1 * (f 0 2 + g 2 0)%nat),
-   (v2 * (f 0 0 - g 1 1)%nat - v0 * f 2%nat 0%nat + v1 * g 1%nat 2%nat,
-    v0 * f 1%nat 0%nat - v2 * g 2%nat 1%nat - v1 * (f 0 0 - g 2 2)%nat,
-    v0 * (f 1 1 - g 2 2)%nat - v1 * f 0%nat 1%nat + v2 * g 2%nat 0%nat)).
+  ((v1 * (f 2 0 + g 0 2) - v2 * (f 1 0 + g 0 1),
+    v2 * (f 0 1 + g 1 0) - v0 * (f 2 1 + g 1 2),
+    v0 * (f 1 2 + g 2 1) - v1 * (f 0 2 + g 2 0)),
+   (v2 * (f 0 0 - g 1 1) - v0 * f 2 0 + v1 * g 1 2,
+    v0 * f 1 0 - v2 * g 2 1 - v1 * (f 0 0 - g 2 2),
+    v0 * (f 1 1 - g 2 2) - v1 * f 0 1 + v2 * g 2 0)).
 (** ArticulatedInertia::shift(s):  F' = F + sx*M ; J' = J + halfCrossDiff(s, ~F, F') *)
 Definition ai_shift (s : Vec3 T) (p : ArtInertia) : ArtInertia :=
   let '(M, F, J) := p in
